@@ -33,7 +33,12 @@ RULE = ("sweep (exhaustive): for each of the 92 .nff tables every node (both as 
         "spelled as a decimal), densities 10^[-12, 2], energy/wavelength given as int, numpy int64/float64/float32 scalars, "
         "0-d arrays, int lists/tuples/int64 arrays, float tuples, length-1 vectors, float32 arrays, compound positional or "
         "by keyword, through xray_sld, scattering_factors, Xray.sld, index_of_refraction and mirror_reflectivity (the last "
-        "against a plain-Python Fresnel formula); the SLD must not change when all counts are scaled. scans: one vector "
+        "against a plain-Python Fresnel formula); the SLD must not change when all counts are scaled. routes: isotope-labelled compounds (9 in 10) through each "
+        "entry (xray_sld, index_of_refraction, mirror_reflectivity, Formula.xray_sld; string or Formula object) and each "
+        "way of giving the density (density=, natural_density=, '@d', '@di', '@dn', Formula.density, Formula.natural_density); "
+        "for the natural routes the actual density is natural density * isotope formula mass / natural formula mass from "
+        "the table masses; each entry judged absolutely (SLD, refraction equation, Fresnel reflectivity), plus energy vs "
+        "wavelength, scalar vs vector, twice the density, and equality with the de-isotoped compound. scans: one vector "
         "object changed in place between 2-3 calls, each call judged for the current values. "
         "Oracle = interpolation of the independently read table "
         "(NaN outside the range / where f1 is -9999), SLD = r_e N_A rho/m sum(n f) 1e-8, n = 1 - lambda^2/2pi (rho + i "
@@ -1025,6 +1030,221 @@ def check_unusual(ctx, value):
 
 
 # ----------------------------------------------------------------------
+# every compound-level oracle through every public entry and every way of giving the density
+ENTRIES = ["xray_sld", "index_of_refraction", "mirror_reflectivity", "Formula.xray_sld"]
+DENSITY_ROUTES = ["density", "natural_density", "natural_density", "@d", "@di", "@dn", "Formula.density",
+                  "Formula.natural_density"]
+NATURAL = ("natural_density", "@dn", "Formula.natural_density")
+
+
+def density_text(milli):
+    """Grammar spelling and value of a density of *milli*/1000 g/cm^3."""
+    text = "%d.%03d" % (milli // 1000, milli % 1000)
+    return text, float(text)
+
+
+def natural_mass(table, comp_f):
+    """Formula mass with every isotope replaced by the natural element (ion charges kept)."""
+    return sum(n * key_to_atom(table, (kk[0], 0, kk[2])).mass for kk, n in comp_f.items())
+
+
+def check_routes(ctx, value):
+    tree, milli, droute, as_formula, focus, ref_idx, especs, mode, vec, angle, rough = value
+    E = env()
+    np, pt, xsf, table, pool = E["np"], E["pt"], E["xsf"], E["table"], E["pool"]
+    case = {"kind": "routes", "value": value}
+    s = fa.render(tree)
+    comp = fa.composition(pool, tree)
+    keys = sorted(comp)
+    comp_f = dict((kk, float(v)) for kk, v in comp.items())
+    specs = [a[1] for a, _ in fa.atoms_of(tree["g"])]
+    has_dt_ion = any(is_dt_ion(sp) for sp in specs)
+    has_iso = any(kk[1] for kk in keys)
+    tab = nff(table[keys[ref_idx % len(keys)][0]].symbol)
+    tabs = [nff(table[kk[0]].symbol) for kk in keys]
+    es = [to_energy(tab, sp) for sp in especs]
+    if not vec:
+        es, especs = es[:1], especs[:1]
+    n = len(es)
+    natural = droute in NATURAL
+    cls = ["routes", "density-route:" + droute, "focus:" + focus, "route:" + mode, "call:" + ("vector" if vec else "scalar"),
+           "compound-as:" + ("Formula" if (as_formula or droute.startswith("Formula")) else "string"),
+           "isotopes:" + ("yes" if has_iso else "no")]
+    ctx.case(("routes", s, milli, droute, bool(as_formula), focus, mode, bool(vec), tuple(es)),
+             nontrivial=(has_iso or any(kk[2] for kk in keys) or any(t.near_edge(e) for t in tabs for e in es)),
+             sample={"compound": s, "density_route": droute, "density": milli / 1000.0, "focus": focus,
+                     "energies_keV": es}, cls=cls)
+    try:
+        f = pt.formula(s)
+        got_comp = dict((atom_key(a), float(c)) for a, c in f.atoms.items())
+    except Exception:  # noqa
+        ctx.inconclusive += 1
+        ctx.count("inconclusive:formula-rejected")
+        return
+    if set(got_comp) != set(comp_f) or any(not same(got_comp[kk], comp_f[kk], 1e-12) for kk in comp_f):
+        ctx.inconclusive += 1
+        ctx.count("inconclusive:composition-differs")
+        return
+    masses = dict((kk, key_to_atom(table, kk).mass) for kk in keys)
+    m_iso = sum(nn * masses[kk] for kk, nn in comp_f.items())
+    ratio = m_iso / natural_mass(table, comp_f) if natural else 1.0
+
+    def build(tree_s, form_obj, mil):
+        """(compound argument, density keywords, text shown) for the density route."""
+        text, d = density_text(mil)
+        base = form_obj if as_formula else tree_s
+        if droute == "density":
+            return base, {"density": d}, "%r, density=%r" % (tree_s, d)
+        if droute == "natural_density":
+            return base, {"natural_density": d}, "%r, natural_density=%r" % (tree_s, d)
+        if droute in ("@d", "@di", "@dn"):
+            tagged = tree_s + "@" + text + droute[2:]
+            return (pt.formula(tagged) if as_formula else tagged), {}, repr(tagged)
+        F = pt.formula(tree_s)
+        if droute == "Formula.density":
+            F.density = d
+            return F, {}, "F=formula(%r); F.density=%r" % (tree_s, d)
+        F.natural_density = d
+        return F, {}, "F=formula(%r); F.natural_density=%r" % (tree_s, d)
+
+    key = "energy" if mode == "E" else "wavelength"
+    okey = "wavelength" if mode == "E" else "energy"
+    lam = [HC / e for e in es]
+
+    def argval(k, idx=None):
+        v = es if k == "energy" else lam
+        if idx is not None:
+            return v[idx]
+        return np.array(v) if vec else v[0]
+
+    def call(entry, cobj, dkw, k, val):
+        if entry == "xray_sld":
+            return xsf.xray_sld(cobj, **dict(dkw, **{k: val}))
+        if entry == "index_of_refraction":
+            return xsf.index_of_refraction(cobj, **dict(dkw, **{k: val}))
+        if entry == "mirror_reflectivity":
+            with np.errstate(all="ignore"):
+                return xsf.mirror_reflectivity(cobj, angle=angle, roughness=rough, **dict(dkw, **{k: val}))
+        F = pt.formula(cobj, **dkw)
+        return F.xray_sld(**{k: val})
+
+    def norm(entry, r, scalar, what):
+        """Result as a list of per-energy items: (rho, irho) pairs, complex n, or R."""
+        m = 1 if scalar else n
+        if entry in ("xray_sld", "Formula.xray_sld"):
+            a, b = r
+            ok = (is_scalar(np, a) and is_scalar(np, b)) if scalar else (is_vector(np, a, m) and is_vector(np, b, m))
+            items = None if not ok else ([(a, b)] if scalar else list(zip(a, b)))
+        elif entry == "index_of_refraction":
+            ok = is_scalar(np, r) if scalar else is_vector(np, r, m)
+            items = None if not ok else ([r] if scalar else list(r))
+        else:
+            ok = isinstance(r, np.ndarray) and r.shape == (1, m)
+            items = None if not ok else list(r[0])
+        if not ok:
+            raise Violation("c05:routes:%s:shape" % entry, "%s returned %r" % (what, getattr(r, "shape", type(r))), case)
+        return items
+
+    def judge_item(entry, item, ref, i, bucket, what):
+        if entry in ("xray_sld", "Formula.xray_sld"):
+            judge_sld(item[0], ref[0], bucket + ":rho", what + " rho[%d]" % i, case)
+            judge_sld(item[1], ref[1], bucket + ":irho", what + " irho[%d]" % i, case)
+            return
+        c = lam[i] ** 2 / (2 * math.pi) * 1e-6
+        anynan = ref[0][2] or ref[1][2]
+        if entry == "index_of_refraction":
+            z = complex(item)
+            judge_sld(1.0 - z.real, ref[0][:2] + (anynan,) + ref[0][3:], bucket + ":real", "1 - Re " + what + "[%d]" % i, case,
+                      factor=c, floor=4 * EPS)
+            judge_sld(-z.imag, ref[1][:2] + (anynan, False) + ref[1][4:], bucket + ":imag", "-Im " + what + "[%d]" % i, case,
+                      factor=c, floor=1e-300)
+            return
+        if anynan or ref[0][3] or ref[1][3]:
+            return
+        got = float(item)
+        want = [_fresnel(complex(1 - c * rr, -c * ii), lam[i], angle, rough) for rr in ref[0][:2] for ii in ref[1][:2]]
+        lo, hi = min(want), max(want)
+        if not (0.0 <= got <= 1.0 + 1e-12):
+            raise Violation(bucket + ":outside-0-1", "%s[0,%d] = %r" % (what, i, got), case)
+        if not (lo * (1 - 1e-6) - 1e-15 <= got <= hi * (1 + 1e-6) + 1e-15):
+            raise Violation(bucket + ":value", "%s[0,%d] = %r, the tables and the density route give %r"
+                            % (what, i, got, 0.5 * (lo + hi)), case)
+
+    def equal_items(entry, x, y):
+        if entry in ("xray_sld", "Formula.xray_sld"):
+            return same(x[0], y[0], 1e-12) and same(x[1], y[1], 1e-12)
+        if entry == "index_of_refraction":
+            x, y = complex(x), complex(y)
+            if isnan(x.real) or isnan(y.real):
+                return isnan(x.real) and isnan(y.real)
+            return (abs((1 - x.real) - (1 - y.real)) <= 8 * EPS + 1e-12 * abs(1 - x.real)
+                    and abs(x.imag - y.imag) <= 1e-12 * abs(x.imag) + 1e-300)
+        x, y = float(x), float(y)
+        if isnan(x) or isnan(y):
+            return isnan(x) and isnan(y)
+        return abs(x - y) <= 1e-9 * max(abs(x), abs(y)) + 1e-15
+
+    cobj, dkw, shown = build(s, f, milli)
+    d_actual = density_text(milli)[1] * ratio
+    refs = [compound_ref(comp_f, masses, d_actual, e) for e in es]
+    if any(r is None for r in refs):
+        ctx.count("excluded:nonmonotonic-interval")
+        return
+
+    # 1. absolute, every entry, chosen density route
+    results = {}
+    for entry in ENTRIES:
+        what = "%s(%s, %s=%r)" % (entry, shown, key, argval(key))
+        r = lib_call(case, entry, lambda: call(entry, cobj, dkw, key, argval(key)), has_dt_ion)
+        items = norm(entry, r, not vec, what)
+        results[entry] = items
+        for i in range(n):
+            judge_item(entry, items[i], refs[i], i, "c05:routes:%s:%s" % (entry, droute), what)
+    entry = focus
+    items = results[entry]
+    # 2. the other of energy= / wavelength=
+    what = "%s(%s, %s=%r)" % (entry, shown, okey, argval(okey))
+    other = norm(entry, lib_call(case, entry, lambda: call(entry, cobj, dkw, okey, argval(okey)), has_dt_ion), not vec, what)
+    for i in range(n):
+        judge_item(entry, other[i], refs[i], i, "c05:routes:%s:%s:energy-vs-wavelength" % (entry, droute), what)
+    # 3. scalar call equals the element of the vector call
+    if vec:
+        what = "%s(%s, %s=%r)" % (entry, shown, key, argval(key, 0))
+        one = norm(entry, lib_call(case, entry, lambda: call(entry, cobj, dkw, key, argval(key, 0)), has_dt_ion), True, what)
+        if not equal_items(entry, one[0], items[0]):
+            raise Violation("c05:routes:%s:%s:scalar-vs-vector" % (entry, droute), "%s -> %r, element 0 of the vector call -> %r"
+                            % (what, one[0], items[0]), case)
+    # 4. twice the density: SLD and 1 - n double
+    if entry != "mirror_reflectivity":
+        cobj2, dkw2, shown2 = build(s, f, 2 * milli)
+        what = "%s(%s, %s=%r)" % (entry, shown2, key, argval(key))
+        twice = norm(entry, lib_call(case, entry, lambda: call(entry, cobj2, dkw2, key, argval(key)), has_dt_ion), not vec, what)
+        for i in range(n):
+            if entry == "index_of_refraction":
+                a, b = complex(items[i]), complex(twice[i])
+                ok = ((isnan(a.real) and isnan(b.real)) or
+                      (abs((1 - b.real) - 2 * (1 - a.real)) <= 8 * EPS + 1e-12 * abs(1 - b.real)
+                       and abs(b.imag - 2 * a.imag) <= 1e-12 * abs(b.imag) + 1e-300))
+            else:
+                ok = same(twice[i][0], 2 * float(items[i][0]), 1e-12) and same(twice[i][1], 2 * float(items[i][1]), 1e-12)
+            if not ok:
+                raise Violation("c05:routes:%s:%s:density-linear" % (entry, droute), "%s -> %r but at half the density %r"
+                                % (what, twice[i], items[i]), case)
+    # 5. isotopes replaced by the natural elements at equal natural density: nothing changes
+    if natural and has_iso:
+        tree2 = deiso(tree)
+        s2 = fa.render(tree2)
+        cobj3, dkw3, shown3 = build(s2, pt.formula(s2), milli)
+        for ent in ENTRIES:
+            what = "%s(%s, %s=%r)" % (ent, shown3, key, argval(key))
+            nat = norm(ent, lib_call(case, ent, lambda: call(ent, cobj3, dkw3, key, argval(key)), has_dt_ion), not vec, what)
+            for i in range(n):
+                if not equal_items(ent, nat[i], results[ent][i]):
+                    raise Violation("c05:routes:%s:%s:isotope-independence" % (ent, droute),
+                                    "%s -> %r but the isotope-labelled %s -> %r" % (what, nat[i], shown, results[ent][i]), case)
+
+
+# ----------------------------------------------------------------------
 # f0
 Q_FIXED = [["abs", 0.0], ["small", 9], ["small", 3], ["abs", 0.1], ["abs", 1.0], ["abs", 5.0],
            ["abs", 4 * math.pi], ["abs", 20.0], ["abs", 50.0], ["lim", -10 ** 6], ["lim", -1], ["lim", 0],
@@ -1254,6 +1474,18 @@ def task_unusual(ctx, n):
     ctx.search("unusual", strat, lambda c, v: check_unusual(c, v), n)
 
 
+def task_routes(ctx, n):
+    pool = env()["pool"]
+    atoms = st.one_of(pool.isotope(), pool.isotope(), pool.dt(), pool.element(), pool.element(), pool.ion(),
+                      pool.isotope_ion(), pool.dt_ion())
+    strat = st.tuples(st.integers(1, 30000), st.sampled_from(DENSITY_ROUTES), st.booleans(), st.sampled_from(ENTRIES),
+                      st.integers(0, 50), st.lists(energy_spec_compound(), min_size=2, max_size=2),
+                      st.sampled_from(["E", "W"]), st.booleans(), st.floats(0.05, 90.0), st.floats(0.0, 30.0),
+                      fa.compound(pool, depth=1, atoms=atoms, max_groups=2, max_atoms=3, density=False)
+                      ).map(lambda t: [t[-1]] + list(t[:-1]))
+    ctx.search("routes", strat, lambda c, v: check_routes(c, v), n)
+
+
 def task_f0(ctx, n, sweep=True):
     E = env()
     syms = E["f0_syms"]
@@ -1282,7 +1514,8 @@ def tasks(tier):
                 ("scan-atoms", task_scans, dict(n_atom=600, n_compound=0)),
                 ("scan-compounds", task_scans, dict(n_atom=0, n_compound=250)),
                 ("unusual", task_unusual, dict(n=400))]
-        out += [("compounds-%d" % k, task_compounds, dict(n=250, depth=k % 3)) for k in range(4)]
+        out += [("compounds-%d" % k, task_compounds, dict(n=334, depth=k % 3)) for k in range(3)]
+        out.append(("routes", task_routes, dict(n=300)))
         return out
     for k in range(4):
         out.append(("factors-%d" % k, task_factors, dict(n=40000)))
@@ -1293,6 +1526,8 @@ def tasks(tier):
     out.append(("f0", task_f0, dict(n=50000)))
     out.append(("scans-0", task_scans, dict(n_atom=8000, n_compound=3000)))
     out.append(("scans-1", task_scans, dict(n_atom=8000, n_compound=3000)))
+    out.append(("routes-0", task_routes, dict(n=5000)))
+    out.append(("routes-1", task_routes, dict(n=5000)))
     out.append(("unusual-0", task_unusual, dict(n=6000)))
     out.append(("unusual-1", task_unusual, dict(n=6000)))
     return out
@@ -1308,6 +1543,8 @@ def replay(ctx, case):
         check_compound(ctx, case["value"])
     elif kind == "f0":
         check_f0(ctx, case["value"])
+    elif kind == "routes":
+        check_routes(ctx, case["value"])
     elif kind == "unusual":
         check_unusual(ctx, case["value"])
     elif kind == "scan-atom":
